@@ -8,6 +8,7 @@ import (
 	"io"
 	"sort"
 	"strings"
+	gosync "sync"
 
 	ocispec "github.com/opencontainers/image-spec/specs-go/v1"
 	"oras.land/oras-go/v2/content"
@@ -52,7 +53,21 @@ type World struct {
 	NeededFault              bool     // at least one injected fault hit an operation whose result the call needs
 	Cancelled                bool
 	Contended                int // times a goroutine found another one inside the same kind of operation
+
+	// mu guards the monitor state in the free-running race pass (under the cooperative scheduler it is
+	// never contended). It is never held across a scheduling point.
+	mu gosync.Mutex
 }
+
+// Do runs f with the monitor state locked.
+func (w *World) Do(f func()) {
+	w.mu.Lock()
+	defer w.mu.Unlock()
+	f()
+}
+
+// Log appends an event to the trace.
+func (w *World) Log(ev string) { w.Do(func() { w.Trace = append(w.Trace, ev) }) }
 
 func NewWorld(d *DAG, conc int) *World {
 	return &World{D: d, Conc: conc, FetchCount: map[int]int{}, PushCount: map[int]int{}, PushDone: map[int]int{}, MountCount: map[int]int{}}
@@ -66,6 +81,7 @@ func (w *World) name(desc ocispec.Descriptor) (int, string) {
 	return id, w.D.Nodes[id].Name
 }
 
+// failf records a monitor failure; callers hold w.mu or run inside Do.
 func (w *World) failf(format string, a ...any) {
 	w.Fails = append(w.Fails, fmt.Sprintf(format, a...))
 }
@@ -87,20 +103,24 @@ func (w *World) fault(op, node string, n int) int {
 	}
 	a := vs.ChooseAt(n, vs.KFault, label)
 	if a != ANormal {
-		w.Injected = append(w.Injected, fmt.Sprintf("%s:%d", label, a))
-		if a == ACancel {
-			w.Cancelled = true
-			if w.Cancel != nil {
-				w.Cancel(&injected{"cancel at " + label})
+		w.Do(func() {
+			w.Injected = append(w.Injected, fmt.Sprintf("%s:%d", label, a))
+			if a == ACancel {
+				w.Cancelled = true
+			} else {
+				w.NeededFault = true
 			}
-		} else {
-			w.NeededFault = true
+		})
+		if a == ACancel && w.Cancel != nil {
+			w.Cancel(&injected{"cancel at " + label})
 		}
 	}
 	return a
 }
 
 func (w *World) begin(src bool) {
+	w.mu.Lock()
+	defer w.mu.Unlock()
 	if src {
 		if w.SrcInflight > 0 {
 			w.Contended++
@@ -130,6 +150,8 @@ func (w *World) end(src bool, label string) {
 	if w.Split {
 		vs.Pt(label + ".end")
 	}
+	w.mu.Lock()
+	defer w.mu.Unlock()
 	if src {
 		w.SrcInflight--
 	} else {
@@ -173,7 +195,7 @@ func (s *Src) Fetch(ctx context.Context, d ocispec.Descriptor) (io.ReadCloser, e
 		s.W.end(true, "src.Fetch("+nm+")")
 		return nil, err
 	}
-	s.W.FetchCount[id]++
+	s.W.Do(func() { s.W.FetchCount[id]++ })
 	return &srcReader{Reader: rc, c: rc, w: s.W, label: "src.Fetch(" + nm + ")"}, nil
 }
 
@@ -239,7 +261,7 @@ func (t *Dst) Push(ctx context.Context, d ocispec.Descriptor, r io.Reader) error
 		return &injected{"dst.Push(" + nm + ")"}
 	}
 	t.W.begin(false)
-	t.W.PushCount[id]++
+	t.W.Do(func() { t.W.PushCount[id]++ })
 	defer t.W.end(false, "dst.Push("+nm+")")
 	// read the content first: reading the source is part of the operation
 	data, rerr := io.ReadAll(r)
@@ -251,7 +273,7 @@ func (t *Dst) Push(ctx context.Context, d ocispec.Descriptor, r io.Reader) error
 	}
 	err := t.Inner.Push(ctx, d, bytes.NewReader(data))
 	if err == nil {
-		t.W.PushDone[id]++
+		t.W.Do(func() { t.W.PushDone[id]++ })
 		t.W.CheckClosed(ctx, t.Inner, id)
 	}
 	if a == AErrAfter && err == nil {
@@ -269,7 +291,9 @@ func (w *World) CheckClosed(ctx context.Context, st content.ReadOnlyStorage, id 
 		for _, s := range w.D.SuccSet(id, true) {
 			ok, err := st.Exists(context.Background(), w.D.Nodes[s].Desc)
 			if err != nil || !ok {
-				w.failf("closure: push of %s completed while successor %s is absent from the destination", w.D.Nodes[id].Name, w.D.Nodes[s].Name)
+				w.Do(func() {
+					w.failf("closure: push of %s completed while successor %s is absent from the destination", w.D.Nodes[id].Name, w.D.Nodes[s].Name)
+				})
 			}
 		}
 	})
@@ -282,7 +306,7 @@ func (t *Dst) Resolve(ctx context.Context, ref string) (ocispec.Descriptor, erro
 func (t *Dst) Tag(ctx context.Context, d ocispec.Descriptor, ref string) error {
 	_, nm := t.W.name(d)
 	vs.Pt("dst.Tag(" + nm + ")")
-	t.W.Trace = append(t.W.Trace, "tag:"+nm+":"+ref)
+	t.W.Log("tag:" + nm + ":" + ref)
 	return t.Inner.Tag(ctx, d, ref)
 }
 
